@@ -1,5 +1,5 @@
 SPECIFICATION Spec
 CONSTANTS
   Tier = "quick"
-  Variant = "code"
+  Variant = "orig"
 INVARIANTS TypeOK InvNoPartial
